@@ -215,6 +215,7 @@ class MetaArray(type):
             if len(dshape) > 0:
                 data["_is_static_shape"] = False
                 data["_dshape_idx"] = dshape
+                data["_order"] = mk_order(data["_order"], _shape)
                 _data_offset += len(dshape) * 8  # space for dynamic shapes
                 if len(_shape) > 1:
                     _data_offset += len(_shape) * 8  # space for strides
